@@ -5,7 +5,7 @@
 //          Content-Length body) delivered in ALL splits into <= 3 reads (each piece is sent and the loops are run
 //          dry before the next, so the server's reads are exactly the pieces). Over the limit => the handler never
 //          runs and the answer is 413; within => the handler runs, never 413.
-//   time:  (header, body) time-outs in {(1 s,2 s), (2 s,1 s), (1 s,1 s)} x stall point {after connect, inside the
+//   time:  (header, body) time-outs in {(1 s,2 s), (2 s,1 s), (1 s,1 s), (1.5 s,2.5 s), (2.5 s,1.5 s)} x stall point {after connect, inside the
 //          request line, inside the headers, after the headers, inside the body} x stall duration
 //          {T-500 ms, T, T+500 ms, T+1 s} (T = the applicable time-out) x scan phase {0, 250 ms}, then the request
 //          is completed. Stall <= T => 200 and never 408; stall >= T+500 ms => 408 and the connection closed.
@@ -64,6 +64,7 @@ struct TimeCase
 {
     int headerMs, bodyMs, stallPoint, stallIdx, phase;
     int prior = 0; // 1: the timed request is the SECOND one on a keep-alive connection (first served 750 ms after connect)
+    int coincide = 0; // 1: the completing bytes arrive together with the last clock step (same wake-up as a scan tick)
 };
 static std::vector<SizeCase> gSize;
 static std::vector<TimeCase> gTime;
@@ -168,7 +169,7 @@ static void case_time(const TimeCase& c, vr::Ctx& ctx)
     int T      = c.stallPoint <= 2 ? std::min(c.headerMs, c.bodyMs) : c.bodyMs;
     int stalls[] = { T - 500, T, T + 500, T + 1000 };
     int stall  = stalls[c.stallIdx];
-    std::string what = std::string(c.prior ? "second request on the connection: " : "") + "header=" + std::to_string(c.headerMs) + "ms body=" + std::to_string(c.bodyMs) + "ms stall " + kStallNames[c.stallPoint] + " for " + std::to_string(stall) + "ms phase=" + std::to_string(c.phase);
+    std::string what = std::string(c.prior ? "second request on the connection: " : "") + "header=" + std::to_string(c.headerMs) + "ms body=" + std::to_string(c.bodyMs) + "ms stall " + kStallNames[c.stallPoint] + " for " + std::to_string(stall) + "ms phase=" + std::to_string(c.phase) + (c.coincide ? " completion-with-the-last-clock-step" : "");
     ctx.note("time " + what);
     if (c.phase)
     {
@@ -204,16 +205,26 @@ static void case_time(const TimeCase& c, vr::Ctx& ctx)
         after(steps, true);
     }
     int first408At = -1;
+    bool completed = false;
     for (int t = 250; t <= stall; t += 250)
     {
         sim::tick(250);
-        after(steps, false);
+        if (c.coincide && t + 250 > stall)
+        {
+            // the rest of the request lands in the same wake-up as this clock step (no server step in between)
+            cl.send_bytes(req.substr(stallAt[c.stallPoint]));
+            completed = true;
+            after(steps, true);
+        }
+        else
+            after(steps, false);
         cl.pump();
         if (first408At < 0 && status_of(cl.received) == 408)
             first408At = t;
     }
     // now complete the request
-    cl.send_bytes(req.substr(stallAt[c.stallPoint]));
+    if (!completed)
+        cl.send_bytes(req.substr(stallAt[c.stallPoint]));
     after(steps, true);
     cl.pump();
     int st          = status_of(cl.received);
@@ -240,7 +251,9 @@ static void case_time(const TimeCase& c, vr::Ctx& ctx)
             }
             if (!cl.peerClosed)
                 ctx.violation("c14:time:connection-not-closed-after-408", d);
-            if (gRequests != served)
+            // (when the late bytes sit in the socket at the very scan that times the request out, the property only
+            // asks for the 408 and the close; whether the handler still sees the request is left open)
+            if (gRequests != served && !c.coincide)
                 ctx.violation("c14:time:handler-ran-for-timed-out-request", d);
         }
     }
@@ -347,13 +360,14 @@ int main(int argc, char** argv)
         for (int delta : { -1, 0, 1 })
             for (int body = 0; body < 2; ++body)
                 gSize.push_back({ limit, delta, body, (limit == 64 || thorough) ? 1 : 0 });
-    int pairs[3][2] = { { 1000, 2000 }, { 2000, 1000 }, { 1000, 1000 } };
+    int pairs[5][2] = { { 1000, 2000 }, { 2000, 1000 }, { 1000, 1000 }, { 1500, 2500 }, { 2500, 1500 } }; // (whole and fractional seconds)
     for (auto& p : pairs)
         for (int sp = 0; sp < 5; ++sp)
             for (int si = 0; si < 4; ++si)
                 for (int ph : { 0, 250 })
                     for (int prior = 0; prior < 2; ++prior)
-                        gTime.push_back({ p[0], p[1], sp, si, ph, prior });
+                        for (int co = 0; co < 2; ++co)
+                            gTime.push_back({ p[0], p[1], sp, si, ph, prior, co });
     int pairs2[3][2] = { { 1000, 3000 }, { 3000, 1000 }, { 1000, 1000 } };
     for (auto& p : pairs2)
         for (int ka = 0; ka < 5; ++ka)
